@@ -30,7 +30,7 @@ TIE = ("Tie to /repo, checked on every run: the current sources are copied to bu
        "on the implementation's histories turn a broken tie into a concrete replay. ")
 
 CLAIMS = {
- "C01": ("5.1", "Coq theorems over the hand-written step machines, for every client program and every interleaving: the lock-free queue is linearizable as a FIFO queue at explicit linearization points (Offer/Poll/Peek/IsEmpty), its linked-list invariants hold in every reachable state and no step dereferences nil; the mutex queue is linearizable as a FIFO queue with Size/IsEmpty, for interleavings that also split a writer's plain read from its plain write. " + TIE,
+ "C01": ("5.1", "Coq theorems over the hand-written step machines, for every client program and every interleaving: the lock-free queue is linearizable as a FIFO queue at explicit linearization points (Offer/Poll/Peek/IsEmpty) and hence (generic theorem lin_ok_hw) in the Herlihy-Wing sense, its linked-list invariants hold in every reachable state and no step dereferences nil; the mutex queue is linearizable as a FIFO queue with Size/IsEmpty, for interleavings that also split a writer's plain read from its plain write. " + TIE,
          "Models Queue/JdkModel.v, Queue/MutexModel.v (hand-written). _v of a node is assumed immutable and iterator objects thread-owned (checked dynamically by the statement-level hunt build, not proved). Go memory model: DRF-SC assumed. Axiom-free."),
  "C02": ("5.2", "Coq theorems, every program of Add/Inc/Dec calls, every interleaving, every probe stream and table limit: after quiescence Sum is the exact (wrapped) total for JDKAdder and JDKF64Adder (invariant over base, attached cells, spin flag, private cells, table growth by re-slicing and by copy) and for RandomCellAdder; AtomicAdder, AtomicF64Adder and MutexAdder are linearizable single numbers. " + TIE,
          "Models Adder/StripedModel.v, Adder/SimpleModel.v. Float adders modelled on integer-valued floats with exact addition (the property's 'exactly representable partial sums'). fastrand is a stream supplied by a stub. Axiom-free."),
@@ -40,8 +40,8 @@ CLAIMS = {
          "Model Breaker/BreakerModel.v vs reference Breaker/Ref.v; float threshold test = SpecFloat binary64. A Go re-implementation of the reference machine is an additional independent oracle in the driver. Axiom-free."),
  "C07": ("5.7", "Coq theorems: no step of any lock-free queue operation is ever disabled, and from EVERY reachable configuration (other threads frozen anywhere, forever) a thread running alone completes its current/next call within 4*nodes+13 own steps - Offer, Poll, Peek, IsEmpty, Size and all iterator operations. " + TIE + "The driver additionally measures solo step counts from random reachable states of the real code.",
          "Model Queue/JdkModel.v. Fairness-based progress under contention (lock-freedom in the technical sense) is not stated; the bound is for solo runs as the property says. Axiom-free."),
- "C09": ("5.9", "Coq theorems. Striped adders (JDKAdder, JDKF64Adder): for programs of non-negative updates and Sums, every interleaving and any table growth, a Sum invoked at position i and returning r at position j satisfies applied(state i) <= r <= applied(state after j) <= total, where applied = base + attached cells is the exact amount of the updates that have taken effect; successive Sums never decrease and never exceed the total. AtomicAdder, AtomicF64Adder and MutexAdder are linearizable counters (which implies the full window statement). PARTIAL: the exact 'set of whole updates' form for updates of mixed sign is not a theorem (checked per history on the real code by a subset-sum monitor); the bounds theorems assume no thread has faulted (fault-freedom of the concurrent striped machine is not proved). " + TIE,
-         "Models Adder/StripedModel.v, Adder/SimpleModel.v. RandomCellAdder's Sum window is covered by correspondence + monitor only. Axiom-free."),
+ "C09": ("5.9", "Coq theorems. Striped adders (JDKAdder, JDKF64Adder): for programs of non-negative updates and Sums, every interleaving and any table growth, a Sum invoked at position i and returning r at position j satisfies applied(state i) <= r <= applied(state after j) <= total, where applied = base + attached cells is the exact amount of the updates that have taken effect; successive Sums never decrease and never exceed the total. AtomicAdder, AtomicF64Adder and MutexAdder are linearizable counters (which implies the full window statement). The striped machine is proved never to fault (all programs), so the bounds need no side condition; RandomCellAdder has the same bounds theorem. PARTIAL only in this: the exact 'set of whole updates' form for updates of MIXED SIGN is not a theorem (checked per history on the real code by a subset-sum monitor). " + TIE,
+         "Models Adder/StripedModel.v, Adder/SimpleModel.v. Axiom-free."),
  "C10": ("5.10", "Coq theorems for any number of concurrent reporters: bucket ids are never shared, the current bucket is never also archived, carried buckets are in no reservoir (so trimAndSum counts nothing twice) and the counters of all buckets together equal the number of executed report-adds modulo 2^64 (nothing invented, nothing lost, CAS losers and back-in-time events included); sequentially the window returns exactly the reference window's counts for every tick stream. The upper bound for counts returned DURING concurrency is not stated as a theorem (monitor + correspondence only). " + TIE,
          "Model Breaker/BreakerModel.v (reservoir = weakly-consistent-iterator specification object, adders = counters). Axiom-free."),
  "C13": ("5.13", "Coq theorems for all programs and interleavings of iterators with Offer/Poll/Remove: a traversal returns only offered values (the value captured for the cursor node), node addresses strictly increase (each element at most once, in queue order), a Next skips only nodes that are dead at that instant, every element still queued when a Next returns is still ahead of the cursor or was returned by this traversal (so an element that stays for the whole traversal is returned), Remove kills exactly the node last returned by Next, every node is taken out by at most one step (the Poll that returns it or the Remove of an iterator that returned it last) and stays dead; iterator operations never fail, never block and terminate within the solo bound of C07. " + TIE,
@@ -50,7 +50,7 @@ CLAIMS = {
          "Model Race/Discipline.v + generated build/gen/AccessTable.v. Lock-held regions approximated by enclosing functions; user-supplied callbacks outside the table. Axiom-free."),
  "C15": ("5.15", "Coq theorems: one goroutine using the lock-free queue (Offer incl. nil, Poll, Peek, IsEmpty, Size, Iterator/HasNext/Next/Remove) gets exactly the results of a plain list object; after ANY concurrent execution Size, further FIFO use and a full drain agree with the elements offered and not yet removed; the mutex queue is linearizable over its API. " + TIE,
          "Models Queue/JdkModel.v, Queue/MutexModel.v. Size saturation at MaxInt32 and int32(l.Len()) wrap excluded by hypothesis (fewer than 2^31-1 elements). Axiom-free."),
- "C16": ("5.16", "Coq theorems. JDKAdder / JDKF64Adder: from every state reachable by ANY alternation of single-goroutine phases over the whole API (Sum, Store, Reset, SumAndReset, updates) and concurrent update phases that have finished - however much the table has grown - a single goroutine gets exactly the results of the plain number those phases compute, and the state stays good for the next phase; the proof exhibits that Store breaks the concurrent invariant (old arrays keep old cells: the reason Store is documented unsafe under concurrency) and identifies the weaker predicate that survives. MutexAdder whole API and AtomicAdder/AtomicF64Adder (without SumAndReset) are linearizable single numbers. RandomCellAdder's Store/Reset/SumAndReset are covered by the correspondence (sequential scripts) and the reference-number monitor only. " + TIE,
+ "C16": ("5.16", "Coq theorems. JDKAdder / JDKF64Adder: from every state reachable by ANY alternation of single-goroutine phases over the whole API (Sum, Store, Reset, SumAndReset, updates) and concurrent update phases that have finished - however much the table has grown - a single goroutine gets exactly the results of the plain number those phases compute, and the state stays good for the next phase; the proof exhibits that Store breaks the concurrent invariant (old arrays keep old cells: the reason Store is documented unsafe under concurrency) and identifies the weaker predicate that survives. RandomCellAdder: the same alternation-of-phases theorem. MutexAdder whole API linearizable; AtomicAdder/AtomicF64Adder linearizable without SumAndReset and, single-goroutine, exact over the whole API. " + TIE,
          "Models Adder/StripedModel.v, Adder/SimpleModel.v. Stored values in int64 range. Axiom-free."),
  "C19": ("5.19", "Coq theorems: MutexLinkedQueue (Offer, Poll, Peek, Size, IsEmpty) and MutexAdder (Add, Inc, Dec, Sum, Store, Reset, SumAndReset) are linearizable at explicit points for every program and interleaving, with writers' critical sections split into a plain read step and a plain write step so that mutual exclusion is what the proof uses. " + TIE,
          "Models Queue/MutexModel.v, Adder/SimpleModel.v mutex_adder. sync.RWMutex modelled without writer preference (only removes behaviours). Axiom-free."),
